@@ -145,9 +145,7 @@ fn qq_to_expression(opts: Rc<dyn CompilerOpts>, body: Rc<SExp>) -> Result<BodyFo
                 _ => Vec::new(),
             };
 
-            if op.len() == 1 && (op[0] == b'q' || op[0] == 1) {
-                return Ok(BodyForm::Quoted(body_copy.clone()));
-            } else if let Some(list) = r.proper_list() {
+            if let Some(list) = r.proper_list() {
                 if op == b"quote" {
                     if list.len() != 1 {
                         return Err(CompileErr(l.clone(), format!("bad form {body}")));
@@ -177,7 +175,9 @@ fn qq_to_expression_list(
         SExp::Cons(l, f, r) => {
             m! {
                 f_qq <- qq_to_expression(opts.clone(), f.clone());
-                r_qq <- qq_to_expression_list(opts, r.clone());
+                // The rest of a list is quasiquoted the same way: it can be
+                // an atom or (unquote x) itself.
+                r_qq <- qq_to_expression(opts, r.clone());
                 Ok(BodyForm::Call(l.clone(), vec!(
                     // Cons, by opcode: a user function may be called c.
                     Rc::new(BodyForm::Value(
